@@ -121,9 +121,13 @@ func RemoveTrailingSlashWithConfig(config TrailingSlashConfig) echo.MiddlewareFu
 
 func sanitizeURI(uri string) string {
 	// double slash `\\`, `//` or even `\/` is absolute uri for browsers and by redirecting request to that uri
-	// we are vulnerable to open redirect attack. so replace all slashes from the beginning with single slash
-	if len(uri) > 1 && (uri[0] == '\\' || uri[0] == '/') && (uri[1] == '\\' || uri[1] == '/') {
-		uri = "/" + strings.TrimLeft(uri, `/\`)
+	// we are vulnerable to open redirect attack. so replace all slashes from the beginning with single slash.
+	// browsers remove tabs and newlines (`\t`, `\r`, `\n`) from an url before parsing it, so these characters must
+	// not hide the second slash: `/\t/example.com` is `//example.com` for a browser.
+	if len(uri) > 1 && (uri[0] == '\\' || uri[0] == '/') {
+		if rest := strings.TrimLeft(uri[1:], "\t\r\n"); len(rest) > 0 && (rest[0] == '\\' || rest[0] == '/') {
+			uri = "/" + strings.TrimLeft(uri, "/\\\t\r\n")
+		}
 	}
 	return uri
 }
